@@ -208,10 +208,10 @@ Qed.
 Definition loop_failed (o : oracle) (st : ustate rec) (rq : request) : bool :=
   lo_failed _ (part_loop o (rq_user rq) (rq_time rq) (rq_items rq) 0 (us_ids st) (mkFsw (us_fs st) 0) None).
 
-(** what a failed upload leaves in the file store: only completely written and
-    closed files of parts before the point of failure — never the file being
-    written when the fault happened, never a cut one, never one without
-    benchmark lines *)
+(** what a failed upload leaves in the file store: the files of SOME prefix of
+    the parts. (This form does not say which prefix; the statement that ties it
+    to the failing part is Proofs/UploadSpec.v
+    [failed_upload_leaves_parts_before_failing], used for C20_failed_file_removed.) *)
 Theorem failed_file_removed o st rq st' :
   run_upload o st rq = (st', UErr) ->
   us_fs st' = us_fs st
